@@ -383,5 +383,42 @@ func c09Hostile(run *ev.Run) {
 			}
 		}
 	}
-	_ = bytes.MinRead
+	// The unary Connect error body travels in the slot of the response message:
+	// a hostile server must not be able to make a client with a read limit
+	// buffer it without bound either (compressed bomb or plain 32 MiB of JSON).
+	for _, ec := range []struct {
+		name string
+		hdr  http.Header
+		body []byte
+	}{
+		{"error-body-bomb-64MiB", http.Header{"Content-Type": {"application/json"}, "Content-Encoding": {"gzip"}}, zeros64},
+		{"error-body-present-32MiB", http.Header{"Content-Type": {"application/json"}}, bytes.Repeat([]byte(" "), 32<<20)},
+	} {
+		for _, status := range []int{400, 404, 500, 503} {
+			key := fmt.Sprintf("c09/hostile/client/connect/unary/%s/status=%d", ec.name, status)
+			if !run.Want(key) {
+				continue
+			}
+			ec := ec
+			cn := &wire.Canned{Background: true, Respond: func(req *http.Request, _ []byte) (*http.Response, error) {
+				return wire.NewResponse(req, status, ec.hdr, &wire.ScriptedBody{Data: ec.body}, nil), nil
+			}}
+			cs := svc.NewClientSet(cn, "http://verif.local", connect.WithReadMaxBytes(N))
+			var cl *svc.CLog
+			delta := measure(func() { cl = cs.Do(context.Background(), svc.Unary, "x", nil, []*gen.Msg{{Id: 1}}) })
+			run.Count("alloc.measured", 1)
+			if delta > maxAlloc {
+				maxAlloc = delta
+			}
+			allocs[fmt.Sprintf("client/connect/unary/%s/%d", ec.name, status)] = delta
+			run.Eval(fmt.Sprintf("hostile|client|connect|unary|%s", ec.name))
+			detail := map[string]any{"case": ec.name, "status": status, "N": N, "allocated": delta, "bound": bound, "client_err": errStr(cl.Err)}
+			if delta > bound {
+				run.Violation(key+"/allocation", fmt.Sprintf("receiving one hostile error body allocated %d bytes with a read limit of %d (bound %d)", delta, N, bound), detail)
+			}
+			if cl.Err == nil {
+				run.Violation(key+"/accepted", "non-200 response reported as success", detail)
+			}
+		}
+	}
 }
